@@ -114,7 +114,21 @@ def handle (op : String) (j : Json) : Option (R Json) :=
       let shape ← shapeArgOfJson j "shape"; let propShape ← shapeArgOfJson j "prop_shape"
       let maskArr ← maskArrOfJson j
       -- the whole call as written: defaults, broadcasting, mask guard, boundary, out_extent (all from generated code)
-      match propagateDftCall fs.toList al.1 al.2 ws[0]! ws[1]! shape propShape os maskArr with
+      -- optional "wtype": the wavefront's plane type; then the typed call `propagateDftTyped` (plane-type check, then the rest) is run
+      let wt ← match optVal j "wtype" with
+        | none => pure (none : Option Gen.WType)
+        | some Json.null => pure none
+        | some (Json.str s) => match Gen.WType.ofName? s with
+          | some t => pure (some t)
+          | none => throw s!"unknown wavefront type {s}"
+        | some _ => throw "wtype: string expected"
+      let (ptOut, body) ← match wt with
+        | none => pure ((none : Option Gen.WType), propagateDftCall fs.toList al.1 al.2 ws[0]! ws[1]! shape propShape os maskArr)
+        | some t => match propagateDftTyped t fs.toList al.1 al.2 ws[0]! ws[1]! shape propShape os maskArr with
+          | .refusedBy e => return (errJ e.name)
+          | .done t' o => pure (some t', o)
+      let ptJ : Json := match ptOut with | some t => Json.str t.name | none => Json.null
+      match body with
       | .valueError => pure (errJ "ValueError")
       | .indexError => pure (errJ "IndexError")
       | .ok outFields S0 S1 =>
@@ -126,7 +140,7 @@ def handle (op : String) (j : Json) : Option (R Json) :=
         pure (okJ [("fields", Json.arr (out.map cfFldToJson).toArray), ("canvas", cfArrToJson canvas),
                    ("alpha", Json.arr #[floatToJson al.1, floatToJson al.2]),
                    ("splits", Json.arr (fs.map fun t => Json.arr #[intJ t.fix0, intJ t.fix1, floatToJson t.sub0, floatToJson t.sub1])),
-                   ("out_shape", ints #[S0, S1]),
+                   ("out_shape", ints #[S0, S1]), ("ptype", ptJ),
                    ("mask_box", match maskArr with
                       | some m => (match boundary m with | some b => extToJson b | none => Json.null)
                       | none => Json.null),
